@@ -93,9 +93,10 @@ def element_bounds(ctx, tk):
         which = "c" if is_c(l) else ("v" if is_v(l) else None)
         if which is None:
             # row bound
-            if _is_unpacked(_strip(l), rowp) or (l.k == "param" and l.a[0] == rowp):
-                if op == ">=" and attr_chain(r) and attr_chain(r)[-1] == "n_rows":
-                    return ("row_hi", True)
+            for ll, rr, oo in ((l, r, op), (r, l, {"<": ">", ">": "<", "<=": ">=", ">=": "<="}[op])):
+                if _is_unpacked(_strip(ll), rowp) or (ll.k == "param" and ll.a[0] == rowp):
+                    if oo == ">=" and attr_chain(rr) and attr_chain(rr)[-1] == "n_rows":
+                        return ("row_hi", True)
             return None
         if is_N(r):
             if op == ">=":
